@@ -62,7 +62,7 @@ func loadWorld() (*World, error) {
 	if nerr > 0 {
 		return nil, fmt.Errorf("%d load errors in module packages", nerr)
 	}
-	prog, spkgs := ssautil.AllPackages(pkgs, ssa.InstantiateGenerics)
+	prog, spkgs := ssautil.AllPackages(pkgs, ssa.InstantiateGenerics|ssa.GlobalDebug)
 	prog.Build()
 	w := &World{Fset: fset, Pkgs: pkgs, Prog: prog, SSAPkgs: spkgs,
 		ByPath: map[string]*packages.Package{}, Funcs: map[string]*ssa.Function{},
